@@ -243,6 +243,11 @@ func (s *StateMachine) CheckSignature(tx *lib.Transaction, authorizedSigners [][
 	if !bytes.Equal(publicKey.Bytes(), tx.Signature.PublicKey) {
 		return nil, ErrInvalidPublicKey(errors.New("non-canonical public key encoding"))
 	}
+	// an aggregate over an empty signer set verifies trivially (identity key, identity signature), and a
+	// threshold of 0 does not ask for more: a multisig transaction must name at least one signer
+	if multiKey, isMulti := publicKey.(*crypto.BLS12381MultiPublicKey); isMulti && multiKey.EnabledSignerCount() == 0 {
+		return nil, ErrInvalidSignature()
+	}
 	// Legacy "RLP" was historically an ordinary memo for non-Ethereum keys.
 	// RLP.V2 is reserved and always requires an Ethereum key.
 	_, hasEthPubKey := publicKey.(*crypto.ETHSECP256K1PublicKey)
